@@ -48,6 +48,10 @@ type c14Data struct {
 	regs     []*c14Reg
 	arrivals []*c14Arrival
 	reqs     map[*LFeat][]uint64 // counters of requests sent per local feature
+	// resultsMostly: half of the answers are matching results; shift: requests sent to the second
+	// peer first, so that the counters of the two connections differ
+	resultsMostly bool
+	shift         int
 }
 
 // three distinct function literals: the stack identifies callbacks by code pointer
@@ -113,6 +117,25 @@ func init() {
 			if len(locals) == 1 {
 				locals = append(locals, pr.Clients[1])
 			}
+			// a third of the runs: every local feature has 3-5 result callbacks, most answers are
+			// results, and the counters of the two connections are shifted against each other - results
+			// referencing different counters are then dispatched concurrently by two readers (seed C14-f)
+			if w.T.Bool(1, 3, "many-result-callbacks") {
+				d.resultsMostly = true
+				w.Probe("c14-many-result-callbacks")
+				for _, lf := range locals {
+					for k := 3 + w.T.Choose(3, "n-result-callbacks"); k > 0; k-- {
+						r := &c14Reg{feat: lf, cbid: w.Uniq()}
+						d.regs = append(d.regs, r)
+						r.invoke = w.Logf("invoke AddResultCallback %s cb%d", AddrStr(lf.Address()), r.cbid)
+						lf.F.AddResultCallback(d.mkCallback(w, r))
+						r.ret = w.Logf("return AddResultCallback")
+					}
+				}
+				if len(pr.Peers) > 1 {
+					d.shift = 1 + w.T.Choose(6, "counter-shift")
+				}
+			}
 			// app tasks: send requests, register callbacks (some concurrently with the arrival)
 			nt := 1 + w.T.Choose(2, "app-tasks")
 			for i := 0; i < nt; i++ {
@@ -129,6 +152,13 @@ func init() {
 						rf := rd.FeatureByAddress(FAddr(p.Addr, []uint{1}, pfMeasurementServer))
 						if rf == nil {
 							continue
+						}
+						if d.shift > 0 && p == pr.Peers[1] {
+							// (requests nobody waits for: they only move this connection's counters on)
+							for ; d.shift > 0; d.shift-- {
+								sel := &model.MeasurementListDataSelectorsType{MeasurementId: util.Ptr(model.MeasurementIdType(w.Uniq()))}
+								_, _ = lf.F.RequestRemoteData(model.FunctionTypeMeasurementListData, sel, nil, rf)
+							}
 						}
 						if w.T.Bool(1, 5, "result-callback") {
 							r := &c14Reg{feat: lf, cbid: w.Uniq()}
@@ -194,7 +224,11 @@ func (d *c14Data) answer(w *World, p *Peer, lf *LFeat, ctr uint64) {
 		src := FAddr(p.Addr, []uint{1}, pfMeasurementServer)
 		dst := lf.Address()
 		a := &c14Arrival{peer: p, feat: lf, src: AddrStr(src)}
-		switch w.T.Choose(8, "answer-kind") {
+		kind := w.T.Choose(8, "answer-kind")
+		if d.resultsMostly && w.T.Bool(1, 2, "result-instead") {
+			kind = 5
+		}
+		switch kind {
 		case 0, 1, 2: // matching reply
 			a.ref, a.accepted = ctr, true
 		case 3: // reply with another reference
